@@ -10,7 +10,7 @@ use serde_json::json;
 fn unit_scenario(direct: Direct, initial_parts: Vec<(u8, u16)>, steps: Vec<Step>, recipient_ok: bool, seed: u64, c16: bool, drain_parts: u8) -> Scenario {
     Scenario {
         cfg: Cfg::default(),
-        payments: vec![PaymentSpec { preimage: 0x11, invoice_amount: Some(1_000_000), tlv_amount: 1_000_000, hints: Hints::None, explicit_payee: false, recipient_ok, drain_parts }],
+        payments: vec![PaymentSpec { preimage_hi: 0, preimage: 0x11, invoice_amount: Some(1_000_000), tlv_amount: 1_000_000, hints: Hints::None, explicit_payee: false, recipient_ok, drain_parts }],
         htlcs: vec![],
         steps,
         write_faults: vec![],
